@@ -727,6 +727,12 @@ func (w *World) opDelete(op *Op) {
 	key, val := w.kd.Key(op.Key), w.vd.Val(op.Val)
 	cur, present := t.model.Get(op.Key)
 	shouldOK := present && !w.vd.Distinct(cur, op.Val)
+	if op.F == "nilval" {
+		// the untyped nil as the value to match: only an entry whose stored value is nil matches
+		val = nil
+		shouldOK = present && w.vd.Name == "nil"
+		w.st.Probes["delete-with-untyped-nil-value"]++
+	}
 	if w.faultedOp(op, t, func() error { return t.m.Delete(ctx, key, val) }, func() {
 		if shouldOK {
 			t.model.Del(op.Key)
@@ -864,6 +870,14 @@ func (w *World) opGet(op *Op) {
 	var got interface{}
 	r := guard(func() error {
 		var err error
+		if op.F == "iface" {
+			// a destination that can hold anything: it must receive exactly the stored value
+			// (nil for a nil value), whatever the configured example type is
+			var dst interface{}
+			found, err = t.m.Get(ctx, key, &dst)
+			got = dst
+			return err
+		}
 		if w.vd.Name == "nil" {
 			found, err = t.m.Get(ctx, key, nil)
 			return err
@@ -879,6 +893,10 @@ func (w *World) opGet(op *Op) {
 	}
 	if found != want {
 		w.failFor("C01", "get-wrong-presence", "Get(key#%d) found=%v, model present=%v", op.Key, found, want)
+		return
+	}
+	if found && op.F == "iface" && w.vd.Name == "nil" && got != nil {
+		w.failFor("C01", "get-wrong-value", "Get(key#%d) into a *interface{} = %s, the stored value is nil", op.Key, valRepr(got))
 		return
 	}
 	if found && w.vd.Name != "nil" && !w.vd.Same(got, wantV) {
